@@ -513,4 +513,152 @@ theorem build_wf (w : World) (root : Path) (ps3 : Bool) (clk : Clock) (filler : 
       rw [hm]; exact Nat.mul_mod_left _ _
 
 
+/-! ### every directory sits where its records say -/
+
+/-- the k-th piece of a flattened list sits at the sum of the lengths before it -/
+theorem slice_flatten {α : Type} (xs : List (List α)) (k : Nat) (x : List α) (hk : xs[k]? = some x) :
+    slice xs.flatten (((xs.take k).map List.length).sum) x.length = x := by
+  induction xs generalizing k with
+  | nil => simp at hk
+  | cons y rest ih =>
+    cases k with
+    | zero =>
+      simp at hk; subst hk
+      simp [slice]
+    | succ k =>
+      simp only [List.getElem?_cons_succ] at hk
+      simp only [List.take_succ_cons, List.map_cons, List.sum_cons, List.flatten_cons]
+      rw [slice_append_right _ _ _ _ (by omega)]
+      have : y.length + ((rest.take k).map List.length).sum - y.length = ((rest.take k).map List.length).sum := by omega
+      rw [this]
+      exact ih k hk
+
+theorem encodeRecs_final_length (L : Layout) (joliet : Bool) (dirLBA k : Nat) (it : DirItem) :
+    (encodeRecs (finalRecs L.items L.rootLen joliet dirLBA L.filesLBA k it)).length =
+      sectors (recsSize (shapeRecs L.items it joliet)) * sectorSize := by
+  rw [encodeRecs_length _ (fun r hr => Ps3.Props.C08.record_length r (finalRecs_time _ _ _ _ _ _ _ r hr))]
+  rw [recsSize_congr _ _ (finalRecs_sizes _ _ _ _ _ _ _)]
+
+theorem zipIdx_getElem {α : Type} (l : List α) (n k : Nat) (a : α) (h : l[k]? = some a) :
+    (l.zipIdx n)[k]? = some (a, n + k) := by
+  induction l generalizing n k with
+  | nil => simp at h
+  | cons b rest ih =>
+    cases k with
+    | zero => simp at h; subst h; simp
+    | succ k =>
+      simp only [List.getElem?_cons_succ] at h
+      simp only [List.zipIdx_cons, List.getElem?_cons_succ]
+      rw [ih (n + 1) k h]; congr 2; omega
+
+/-- directory `k` of one hierarchy inside the flattened directory area -/
+theorem dir_in_area (L : Layout) (joliet : Bool) (dirLBA k : Nat) (it : DirItem) (hk : L.items[k]? = some it) :
+    slice ((L.recsOf joliet dirLBA).map encodeRecs).flatten
+      (prefixSum (dirSectors L.items joliet) k * sectorSize)
+      (((dirSectors L.items joliet)[k]?.getD 0) * sectorSize) =
+    encodeRecs (finalRecs L.items L.rootLen joliet dirLBA L.filesLBA k it) := by
+  have hrec : L.recsOf joliet dirLBA = L.items.zipIdx.map (fun p => finalRecs L.items L.rootLen joliet dirLBA L.filesLBA p.2 p.1) := by
+    unfold Layout.recsOf
+    exact range_filterMap_getElem (fun k it => finalRecs L.items L.rootLen joliet dirLBA L.filesLBA k it) L.items
+  have hget : ((L.recsOf joliet dirLBA).map encodeRecs)[k]? =
+      some (encodeRecs (finalRecs L.items L.rootLen joliet dirLBA L.filesLBA k it)) := by
+    rw [hrec, List.map_map, List.getElem?_map, zipIdx_getElem L.items 0 k it hk]
+    simp
+  have hlens : ((L.recsOf joliet dirLBA).map encodeRecs).map List.length =
+      (dirSectors L.items joliet).map (· * sectorSize) := by
+    rw [hrec, List.map_map, List.map_map]
+    unfold dirSectors
+    rw [List.map_map, ← zipIdx_map_fst ((fun x => x * sectorSize) ∘ fun it => sectors (recsSize (shapeRecs L.items it joliet))) L.items 0]
+    apply List.map_congr_left
+    intro p _
+    simp only [Function.comp]
+    exact encodeRecs_final_length L joliet dirLBA p.2 p.1
+  have hsl := slice_flatten _ k _ hget
+  have hsum : ((((L.recsOf joliet dirLBA).map encodeRecs).take k).map List.length).sum =
+      prefixSum (dirSectors L.items joliet) k * sectorSize := by
+    rw [List.map_take, hlens]
+    unfold prefixSum
+    rw [← List.map_take, sum_map_mul]
+    simp
+  rw [hsum] at hsl
+  have hlen : (encodeRecs (finalRecs L.items L.rootLen joliet dirLBA L.filesLBA k it)).length =
+      ((dirSectors L.items joliet)[k]?.getD 0) * sectorSize := by
+    rw [encodeRecs_final_length]
+    unfold dirSectors
+    simp [List.getElem?_map, hk]
+  rw [hlen] at hsl
+  exact hsl
+
+theorem take_sum_le (l : List Nat) (k : Nat) : (l.take k).sum ≤ l.sum := by
+  induction l generalizing k with
+  | nil => simp
+  | cons a rest ih =>
+    cases k with
+    | zero => simp
+    | succ k => simp only [List.take_succ_cons, List.sum_cons]; have := ih k; omega
+
+theorem prefix_plus_le (l : List Nat) (k : Nat) (hk : k < l.length) :
+    prefixSum l k + (l[k]?.getD 0) ≤ l.sum := by
+  have h1 : prefixSum l (k + 1) = prefixSum l k + (l[k]?.getD 0) := by
+    unfold prefixSum
+    rw [List.take_add_one, List.sum_append]
+    simp [List.getElem?_eq_getElem hk]
+  rw [← h1]; exact take_sum_le l (k + 1)
+
+/-- **Directory `k` sits in the image exactly where its records say**, in both hierarchies: the bytes
+    at sector `dirLoc k`, `dirLen k` long, are the encoding of that directory's records. -/
+theorem dir_at_its_location (w : World) (L : Layout) (F : LayoutFacts w L) (ps3 : Bool) (clk : Clock) (filler : Bytes)
+    (joliet : Bool) (k : Nat) (it : DirItem) (hk : L.items[k]? = some it) :
+    slice (metaBytes L ps3 clk filler)
+      ((prefixSum (dirSectors L.items joliet) k + (if joliet then L.jolietLBA else L.isoLBA)) * sectorSize)
+      (((dirSectors L.items joliet)[k]?.getD 0) * sectorSize) =
+    encodeRecs (finalRecs L.items L.rootLen joliet (if joliet then L.jolietLBA else L.isoLBA) L.filesLBA k it) := by
+  have hklt : k < (dirSectors L.items joliet).length := by
+    have : k < L.items.length := by
+      rcases Nat.lt_or_ge k L.items.length with a | a
+      · exact a
+      · rw [List.getElem?_eq_none a] at hk; cases hk
+    simpa [dirSectors] using this
+  have hple := prefix_plus_le (dirSectors L.items joliet) k hklt
+  -- the metadata area as prefix ++ primary directories ++ Joliet directories
+  have hsplit : metaBytes L ps3 clk filler =
+      (sysArea L ps3 filler ++ pvdOf L clk ++ svdOf L clk ++ terminatorDescriptor ++ zeros sectorSize ++
+        (encodePt (pathTable L.items L.rootLen false L.isoLBA) false ++ encodePt (pathTable L.items L.rootLen false L.isoLBA) true ++
+         encodePt (pathTable L.items L.rootLen true L.jolietLBA) false ++ encodePt (pathTable L.items L.rootLen true L.jolietLBA) true)) ++
+      (((L.recsOf false L.isoLBA).map encodeRecs).flatten ++ ((L.recsOf true L.jolietLBA).map encodeRecs).flatten) := by
+    unfold metaBytes tablesAndDirs
+    simp only [List.append_assoc]
+  have hpre : (sysArea L ps3 filler ++ pvdOf L clk ++ svdOf L clk ++ terminatorDescriptor ++ zeros sectorSize ++
+        (encodePt (pathTable L.items L.rootLen false L.isoLBA) false ++ encodePt (pathTable L.items L.rootLen false L.isoLBA) true ++
+         encodePt (pathTable L.items L.rootLen true L.jolietLBA) false ++ encodePt (pathTable L.items L.rootLen true L.jolietLBA) true)).length =
+      L.isoLBA * sectorSize := by
+    unfold pvdOf svdOf
+    simp only [List.length_append, sysArea_length L ps3 filler F.game,
+      volumeDescriptor_length _ _ _ _ _ _ _ _ _ (rootRecOf_len L _ _), terminator_length, zeros_length, pt_length]
+    rw [F.iso, F.ptSecs, F.ptJSecs]
+    simp only [Proof.Viso.sectorSize_eq]
+    omega
+  have hdI := dirs_length L false L.isoLBA
+  have hdJ := dirs_length L true L.jolietLBA
+  rw [hsplit]
+  cases joliet with
+  | false =>
+    simp only [Bool.false_eq_true, if_false]
+    rw [slice_append_right _ _ _ _ (by rw [hpre]; rw [Nat.add_mul]; omega)]
+    rw [hpre]
+    have hoff : (prefixSum (dirSectors L.items false) k + L.isoLBA) * sectorSize - L.isoLBA * sectorSize =
+        prefixSum (dirSectors L.items false) k * sectorSize := by rw [Nat.add_mul]; omega
+    rw [hoff, slice_append_left _ _ _ _ (by rw [hdI, ← Nat.add_mul]; exact Nat.mul_le_mul_right _ hple)]
+    exact dir_in_area L false L.isoLBA k it hk
+  | true =>
+    simp only [if_true]
+    rw [slice_append_right _ _ _ _ (by rw [hpre, F.joliet]; rw [Nat.add_mul, Nat.add_mul]; omega)]
+    rw [hpre]
+    rw [slice_append_right _ _ _ _ (by rw [hdI, F.joliet]; simp only [Nat.add_mul]; omega)]
+    have hoff : (prefixSum (dirSectors L.items true) k + L.jolietLBA) * sectorSize - L.isoLBA * sectorSize -
+        (((L.recsOf false L.isoLBA).map encodeRecs).flatten).length = prefixSum (dirSectors L.items true) k * sectorSize := by
+      rw [hdI, F.joliet]; simp only [Nat.add_mul]; omega
+    rw [hoff]
+    exact dir_in_area L true L.jolietLBA k it hk
+
 end Ps3.Proof.BuildWF
